@@ -8,6 +8,8 @@ package main
 
 import (
 	"fmt"
+	"sort"
+	"strings"
 
 	"github.com/google/badwolf/storage"
 	"github.com/google/badwolf/storage/memory"
@@ -240,5 +242,72 @@ func init() {
 			}
 			// the CONSTRUCT may finish before the drop (success) or lose its graph on the way (an error): both are answers
 			return fmt.Sprintf("constructErr=%v", h.bqlIns.err != nil)
+		}})
+}
+
+// S6c: a BQL SHOW GRAPHS next to a BQL CREATE GRAPH and a BQL DROP GRAPH on a store that holds two graphs: the driver
+// streams the names while it holds the store's lock for reading, and whatever the statement does per name must not
+// wait behind a writer that waits for that stream. All three statements return; SHOW lists each graph at most once,
+// always the graph nobody touches, and nothing that never existed.
+func init() {
+	scenarios = append(scenarios, scenario{
+		Name: "S6c", Class: "S6c:BQL-SHOW-GRAPHS|BQL-CREATE-GRAPH|BQL-DROP-GRAPH", Mode: explore.Bounded, OneCap: true, Cfg: vrt.Config{Procs: 2}, BoundQ: 2, BoundT: 3,
+		Body: func(h *hctx, c int) {
+			st := memory.NewStore()
+			for _, n := range []string{"?g", "?d"} {
+				if _, err := st.NewGraph(ctx, n); err != nil {
+					panic(err)
+				}
+			}
+			h.wg.Add(3)
+			vrt.GoNamed("show", func() {
+				defer h.wg.Done()
+				h.bqlSel = runBQL(st, `show graphs;`, 0, 1)
+			})
+			vrt.GoNamed("create", func() {
+				defer h.wg.Done()
+				h.bqlIns = runBQL(st, `create graph ?x;`, 0, 1)
+			})
+			var drop bqlResult
+			vrt.GoNamed("drop", func() {
+				defer h.wg.Done()
+				drop = runBQL(st, `drop graph ?d;`, 0, 1)
+				if drop.err != nil {
+					h.bqlIns.err = drop.err
+				}
+			})
+			h.wg.Wait()
+			vrt.MarkReturned()
+		},
+		Custom: func(h *hctx, add func(shape, detail string)) string {
+			if h.bqlIns.err != nil {
+				add("create-or-drop-returned-error", h.bqlIns.err.Error())
+			}
+			if h.bqlSel.err != nil {
+				add("show-returned-error", h.bqlSel.err.Error())
+				return "show failed"
+			}
+			seen := map[string]int{}
+			for _, row := range h.bqlSel.rows {
+				seen[row]++
+			}
+			var names []string
+			for n, k := range seen {
+				names = append(names, n)
+				if k > 1 {
+					add("show-lists-a-graph-twice", fmt.Sprint(h.bqlSel.rows))
+				}
+			}
+			sort.Strings(names)
+			oc := strings.Join(names, ",")
+			if !strings.Contains(oc, "?g") {
+				add("show-misses-a-graph-nobody-touches", oc)
+			}
+			for _, n := range names {
+				if !strings.Contains(n, "?g") && !strings.Contains(n, "?d") && !strings.Contains(n, "?x") {
+					add("show-lists-a-graph-that-never-existed", oc)
+				}
+			}
+			return oc
 		}})
 }
